@@ -432,24 +432,36 @@ def check(rep, F, tier, replay=None):
     ws_capture(rep, F)
     ws_writer(rep, F)
     # (6) byte-capturing readers
+    def _delegated(fid_):
+        """the byte capture of this reader was split into crate helpers that receive the reader (seek / copy live there): the three
+        CAP rules read one function body and cannot follow - ANCHOR-LOST, not a verdict"""
+        fn_ = F.fns[fid_]
+        own = any((c.to or "").endswith("to_vec") for c in F.calls(fid_))  # the copy itself
+        helpers = [c.to for c in F.calls(fid_) if (c.to or "") in F.fns and c.info.get("local") and "{closure" not in (c.to or "") and any((k.to or "").endswith("to_vec") for k in F.calls(c.to))]
+        return (not own) and bool(helpers)
     rep.rule("CAP-range", "the captured byte range is [before, after): both from seek(Current(0)) on the same reader, the decode call sits between them in dominance order, and the slice length is after - before")
     for key in ("serialization::utils::deserilized_with_orig_bytes", "<PlutusData as serialization::traits::Deserialize>::deserialize"):
         fid = fn1(rep, F, key)
         if not fid:
             continue
         rep.inst("CAP-range")
+        if _delegated(fid):
+            rep.lost("%s delegates the byte capture to helper functions: CAP-range / CAP-always / MF cannot follow (re-anchor)" % key)
+            continue
         cap_range(rep, F, fid, key)
     # (6b) the captured bytes reach the result on EVERY success path (no path returns the value without them)
     from ruleutil import run_mustflow
-    run_mustflow(rep, F, [
+    run_mustflow(rep, F, [e_ for e_ in [
         {"fn": "serialization::utils::deserilized_with_orig_bytes", "sources": ["slice::<impl [T]>::to_vec"], "what": "the copied original bytes"},
         {"fn": "<PlutusData as serialization::traits::Deserialize>::deserialize", "sources": ["slice::<impl [T]>::to_vec"], "what": "the copied original bytes of the datum"},
-    ])
+    ] if not (F.by_key(e_["fn"]) and _delegated(F.by_key(e_["fn"])[0]))])
     import mustpass as mp
     rep.rule("CAP-always", "every success return of a byte-capturing reader is dominated by the call that copies the original bytes (no success path skips the capture)")
     for key in ("serialization::utils::deserilized_with_orig_bytes", "<PlutusData as serialization::traits::Deserialize>::deserialize"):
         fid = fn1(rep, F, key)
         if not fid:
+            continue
+        if _delegated(fid):
             continue
         caps = [c.bb for c in F.calls(fid) if (c.to or "").endswith("to_vec")]
         fn = F.fns[fid]
